@@ -32,6 +32,9 @@ order of the column norms: the warning branch of X_orthogonalizer).  The same th
 with (a) the warm-start re-orthogonalisation loop modelled WITH a firing guard, (b) X_current_ /
 y_current_ compared after EVERY fit of the history, (c) every comparison relative to the scale of
 the data.  Theorems: C07_history_argmax, C07_warm_catches_up, C07_y_feature_events.
+Family "presentations" (follow-up): every history is re-run with the same values handed over as int64 /
+int32 / float32 / Fortran / strided / list X and int64 / int32 / float32 / list / 1-D / Fortran y; the
+property oracle runs on it and it must coincide with the float64 run (float32 X: cold start only).
 """
 import collections
 
@@ -175,7 +178,7 @@ def run_histories(ctx, nhist):
         ress.append(H.run_impl(c))
     stats = collections.Counter()
     hist = dict(kind_axis=collections.Counter(), fits_per_segment=collections.Counter(),
-                scale_exp=collections.Counter(), tolerance=collections.Counter(),
+                scale_exp=collections.Counter(), tolerance=collections.Counter(), presentation=collections.Counter(),
                 re_transitions=collections.Counter(), segments=collections.Counter())
     reported = set()
     for i, (c, r) in enumerate(zip(cases, ress)):
@@ -218,6 +221,23 @@ def run_histories(ctx, nhist):
                                    dict(case=c, twin=twin, observed=hslim(r), observed_twin=hslim(r2)),
                                    found_input=True)
                 reported.add(i)
+    # input presentations: the same values as int64 / int32 / float32 / Fortran / strided / list X and as
+    # integer-typed / float32 / list / 1-D / Fortran y must give what the float64 arrays give
+    for i, (c, r) in enumerate(zip(cases, ress)):
+        pres = H.gen_presentation(ctx.rng, c)
+        if pres is None or i in reported:
+            continue
+        c2 = dict(c, present=pres)
+        r2 = H.run_impl(c2)
+        pmsg, pinfo = H.compare_presentation(c, r, c2, r2)
+        stats["presentation_histories"] += 1
+        hist["presentation"]["X=%s,y=%s" % (pres["X"] or "float64", pres["y"] or ("float64" if c["kind"] == "pcovcur" else "-"))] += 1
+        stats["presentation_refreshes_compared"] += pinfo["compared_refreshes"]
+        stats["presentation_integer_typed_y"] += pres["y"] in ("int64", "int32", "1d_int64")
+        if pmsg:
+            C.report_violation(ctx, "C07 fails on the implementation: " + pmsg,
+                               dict(case=c2, observed=hslim(r2), observed_float64=hslim(r)), found_input=True)
+            reported.add(i)
     reports, broken = evaluate_hist(ctx, cases, ress)
     maxima = [0.0] * len(HFLOATS)
     totals = collections.Counter()
@@ -411,6 +431,9 @@ def replay_history(ctx, obj):
     r = H.run_impl(c)
     msg, info = H.oracle(c, r)
     print("selected:", [s.get("sel") for s in r.get("segments", [])], "error:", r.get("error"))
+    if msg is None and c.get("present"):
+        base = {k: v for k, v in c.items() if k != "present"}
+        msg, _ = H.compare_presentation(base, H.run_impl(base), c, r)
     if msg is None and "twin" in obj:
         twin, what = H.twin_case(c)
         if twin is not None:
